@@ -5,6 +5,7 @@
 // No property formula here: TLC (Trace_Symmetries.tla, Trace_MatrixCache.tla) decides.
 //   c03_matrix sym  <out.ndjson> <tier 0|1>
 //   c03_matrix rows <out.ndjson> <tier 0|1> [family-index]
+//   c03_matrix count <out.ndjson> <tier 0|1>                  number of families of the rows mode
 #include "c03_matrix_common.h"
 #include <map>
 using namespace stir;
@@ -287,7 +288,8 @@ static void run_rows(vh::Trace& tr, int tier, int only, vh::Rng& rng) {
   for (size_t fi = 0; fi < fs.size(); ++fi) {
     if (only >= 0 && (int)fi != only) continue;
     const Family& f = fs[fi];
-    Recorder rec(tr, rng);
+    vh::Rng frng((uint64_t)vh::seed_from_env() * 1000 + fi);   // per family: the trace of a family does not depend on the others
+    Recorder rec(tr, frng);
     const int per_block = 49;          // histories per Config block (the reference rows are repeated per block)
     int nh = 0;
     auto maybe_open = [&] { if (nh % per_block == 0) rec.open(f, ++id); ++nh; };
@@ -314,6 +316,7 @@ int main(int argc, char** argv) {
   vh::Rng rng(vh::seed_from_env());
   if (mode == "sym") run_sym(tr, tier);
   else if (mode == "rows") run_rows(tr, tier, argc > 4 ? atoi(argv[4]) : -1, rng);
+  else if (mode == "count") tr.emit(vh::Json("Count").num("families", (long)families(tier).size()));
   else return 2;
   return 0;
 }
